@@ -21,6 +21,7 @@ EXPLANATION = (
     "a query before reporting it Finished or Timeout, the timeout test compares elapsed time with query_timeout on the waiting "
     "arms, and the service hands the result to the callback exactly on that arm, the callback being moved either into the pool or "
     "sent on when a query is started. R4: the two files' tables agree up to the listed exception.")
+EXPLANATION += (' Added while testing: R3 also requires Query::started to be None at construction, stamped once and before the timeout test, and QueryPool::add to number queries from a counter that only moves forward.')
 NOT_DECIDED = ["termination itself (liveness; the service polls the pool from a poll_fn that registers no waker)", "the Iterating/Stalled progress arithmetic"]
 TRUSTED = ["oneshot::Sender::send consumes the sender (at-most-once is a typing fact)", "BTreeMap entry API"]
 
